@@ -241,6 +241,8 @@ func genCase(t *rapid.T) Case {
 	}
 	if chance(t, "stmt.corrupt", 12) {
 		c.Stmt.Corrupt = rapid.IntRange(1, 5).Draw(t, "stmt.corruption")
+	} else if chance(t, "stmt.relative", 20) {
+		c.Stmt.Extra = rapid.IntRange(1, 16).Draw(t, "stmt.extra")
 	}
 	return c
 }
@@ -325,13 +327,24 @@ func prepare(c Case, vs *hx.Vs, ev *evidence) (p prepared, ok bool) {
 	if from < 0 {
 		from += len(p.pool)
 	}
-	text := applyVariant(p.pool[from].text, p.pg, c.Stmt.Var)
+	base, extra := p.pool[from].text, ""
+	if c.Stmt.Extra > 0 && c.Stmt.Corrupt == 0 && p.pool[from].st != nil {
+		if rel, name, rok := makeRelative(base, p.pg, c.Stmt.Extra); rok {
+			base, extra = rel, name
+		}
+	}
+	text := applyVariant(base, p.pg, c.Stmt.Var)
 	if c.Stmt.Corrupt != 0 {
 		text = corrupt(text, c.Stmt.Corrupt, p.pg)
 		from = -1
 	}
-	p.x = xInfo{text: text, info: analyse(text, p.pg), from: from}
-	if from >= 0 && p.pool[from].st != nil && p.x.info.norm != p.pool[from].norm {
+	p.x = xInfo{text: text, info: analyse(text, p.pg), from: from, extra: extra}
+	if extra != "" {
+		if want := analyse(base, p.pg).norm; p.x.info.norm != want {
+			vs.Add("harness:variant-not-equivalent", "formatting variant %q of %q has another normal form", text, base)
+			return p, false
+		}
+	} else if from >= 0 && p.pool[from].st != nil && p.x.info.norm != p.pool[from].norm {
 		vs.Add("harness:variant-not-equivalent", "formatting variant %q of %q has another normal form", text, p.pool[from].text)
 		return p, false
 	}
@@ -447,6 +460,9 @@ func CheckVerdict(c Case) (vs hx.Vs, ev evidence) {
 	if len(c.Stmt.Var) > 0 && c.Stmt.Corrupt == 0 {
 		ev.class("stmt:formatting-variant-of-rule-source")
 	}
+	if x.extra != "" {
+		ev.class("stmt:relative:%s", x.extra)
+	}
 	full, err := loadCensor(&vs, p.fullYAML)
 	if err != nil {
 		if len(vs) == 0 {
@@ -493,9 +509,13 @@ func CheckVerdict(c Case) (vs hx.Vs, ev evidence) {
 				for _, a := range o.pat.d.Applied {
 					ev.class("placeholder:%s", a)
 				}
-				if o.pat.from == x.from {
+				if o.pat.from == x.from && x.extra == "" {
 					ev.nontrivial = true
 					ev.class("pattern-source-under-test:%s", x.info.kind)
+				}
+				if o.pat.from == x.from && x.extra != "" && o.pat.d.Whole == "" {
+					ev.nontrivial = true
+					ev.class("pattern-source-with-added-clause-under-test:%s", x.extra)
 				}
 			}
 			if o.ref == match {
@@ -545,6 +565,12 @@ func CheckVerdict(c Case) (vs hx.Vs, ev evidence) {
 					why := "other-tables"
 					if o.pat.d.Whole != "" || p.pool[o.pat.from].kind != x.info.kind {
 						why = "other-kind"
+					}
+					if o.pat.from == x.from && x.extra != "" {
+						why = "added-clause:" + x.extra
+						if has(o.pat.d.Applied, "where") {
+							why += "/where-placeholder"
+						}
 					}
 					vs.Add("pattern-matches-different-statement:"+why, "%s rule on pattern %q (derived from %q) matches the structurally different statement %q", h.kind, o.desc, p.pool[o.pat.from].text, x.text)
 				}
